@@ -60,8 +60,8 @@ type c19Req struct {
 	Want []string `json:"want,omitempty"`
 	// index of the rule the expectation was constructed from (0 = none, j+1 = rule j); lets the
 	// shrinker drop rules no request depends on
-	Rule int `json:"rule,omitempty"`
-	Resp c19Resp  `json:"resp"`
+	Rule int     `json:"rule,omitempty"`
+	Resp c19Resp `json:"resp"`
 }
 
 type c19Step struct {
